@@ -28,11 +28,17 @@ pub static BUDGET_PER_POLL: std::sync::atomic::AtomicI64 = std::sync::atomic::At
 pub static BUDGET_LEFT: std::sync::atomic::AtomicI64 = std::sync::atomic::AtomicI64::new(i64::MAX);
 pub static DEFERRED: Mutex<Vec<Waker>> = Mutex::new(Vec::new());
 pub static BUDGET_REFUSALS: AtomicU64 = AtomicU64::new(0);
+/// the budget belongs to the application's task: it applies only to transport operations made while the driver polls the
+/// application's call (the socket's own tasks - readers, flushers - have budgets of their own, never exhausted here)
+pub static IN_APP_POLL: std::sync::atomic::AtomicBool = std::sync::atomic::AtomicBool::new(false);
+/// does the budget also cover writes (a successful write uses one unit, a write beyond the budget is refused)?
+pub static BUDGET_WRITES: std::sync::atomic::AtomicBool = std::sync::atomic::AtomicBool::new(false);
 pub fn set_budget(k: Option<i64>) {
     let k = k.unwrap_or(i64::MAX);
     BUDGET_PER_POLL.store(k, Ordering::SeqCst);
     BUDGET_LEFT.store(k, Ordering::SeqCst);
     DEFERRED.lock().unwrap().clear();
+    BUDGET_WRITES.store(false, Ordering::SeqCst);
 }
 /// the application's task has returned Pending to the executor: deferred wake-ups are delivered, the next poll has a fresh budget
 pub fn task_yielded() {
@@ -118,7 +124,7 @@ impl AsyncRead for R {
         if let Some(h) = hook {
             h();
         }
-        if BUDGET_PER_POLL.load(Ordering::SeqCst) != i64::MAX {
+        if BUDGET_PER_POLL.load(Ordering::SeqCst) != i64::MAX && IN_APP_POLL.load(Ordering::SeqCst) {
             if BUDGET_LEFT.load(Ordering::SeqCst) <= 0 {
                 DEFERRED.lock().unwrap().push(cx.waker().clone());
                 BUDGET_REFUSALS.fetch_add(1, Ordering::SeqCst);
@@ -179,6 +185,14 @@ impl AsyncRead for R {
 
 impl AsyncWrite for W {
     fn poll_write(self: Pin<&mut Self>, cx: &mut Context<'_>, data: &[u8]) -> Poll<io::Result<usize>> {
+        if BUDGET_WRITES.load(Ordering::SeqCst) && BUDGET_PER_POLL.load(Ordering::SeqCst) != i64::MAX && IN_APP_POLL.load(Ordering::SeqCst) {
+            if BUDGET_LEFT.load(Ordering::SeqCst) <= 0 {
+                DEFERRED.lock().unwrap().push(cx.waker().clone());
+                BUDGET_REFUSALS.fetch_add(1, Ordering::SeqCst);
+                return Poll::Pending;
+            }
+            BUDGET_LEFT.fetch_sub(1, Ordering::SeqCst);
+        }
         let mut c = self.0 .0.lock().unwrap();
         c.writes += 1;
         if let Some(k) = c.broken {
